@@ -57,7 +57,7 @@ class Finding:
 SEMANTIC_RULES = {
     "C01": {"R1", "R3", "R4", "E2E"},
     "C02": {"R1", "R2", "R3", "R5", "R7", "R8", "R9"},
-    "C03": {"R1", "R4", "R5", "R6", "R7", "R6v", "R8v", "R9v", "R3v"},
+    "C03": {"R1", "R4", "R5", "R6", "R7", "R6v", "R8v", "R9v", "R3v", "R10v"},
     "C04": {"R1", "R2", "R3", "R4", "R9", "R10", "R11"},
     "C05": {"R1", "R2", "R3", "R6", "R8", "R9", "R10"},
     "C06": {"R1", "R2", "R3", "R4", "R5", "R6v", "R8", "R8v", "R9v"},
